@@ -26,7 +26,7 @@ var c19Xfs = []Xf{
 	{Scale: 0.25, Tx: -0.75, Ty: 0.25},      // dyadic offset across 0
 	{Scale: 1.0 / (1 << 30)},                // tiny: products of differences around 2^-56, where an absolute epsilon would bite
 	{Scale: 1.0 / (1 << 45), Tx: 0, Ty: 0},  // 2^-45
-	farFineXf, // step 2^-12 at 2^19
+	farFineXf,                               // step 2^-12 at 2^19
 	{Scale: 1.0 / 8192, Tx: -1048575, Ty: 1048575 - 1.0/256},
 }
 
@@ -46,7 +46,7 @@ func runC19(r *rt.Run) {
 	r.Bounds["segments"] = len(L) * len(L)
 	r.Bounds["probe_points"] = len(H)
 	r.Bounds["transforms"] = len(c19Xfs)
-	r.Rule = "all ordered endpoint pairs over the lattice (zero-length included) x all half-step points (raycast/contains-point/collinear) and x all segments (intersects both orders, contains), under each float transform; long anchored segments (span 32/64, also shifted to +-2^20) x every lattice point on or next to them; near-miss/near-hit pairs up to 2^20 in 8 orientations; near-parallel family: directions M*(P,Q)+e1 and M*(P,Q)+e2 (12 primitive (P,Q), lengths M up to 2^20 (segments up to 2^21 long), e1,e2 over [-2,2]^2) crossing at / ending at / starting next to a common point with every offset in [-1,1]^2, both operand orders; probes and endpoints written with negative zero; ulp grid: x = +-(2^20-1) + k 2^-33, y = 0..6, every (segment, point) triple over 7x7 and every segment pair over 4x4; non-trivial = probe inside the segment's y-range (point cases) / bounding boxes meet (segment cases)"
+	r.Rule = "all ordered endpoint pairs over the lattice (zero-length included) x all half-step points (raycast/contains-point/collinear) and x all segments (intersects both orders, contains), under each float transform; long anchored segments (span 32/64, also shifted to +-2^20) x every lattice point on or next to them; near-miss/near-hit pairs up to 2^20 in 8 orientations; near-parallel family: directions M*(P,Q)+e1 and M*(P,Q)+e2 (12 primitive (P,Q), lengths M up to 2^20 (segments up to 2^21 long), e1,e2 over [-2,2]^2) crossing at / ending at / starting next to a common point with every offset in [-1,1]^2, both operand orders; probes and endpoints written with negative zero; mixed scale: segments between points of the 2^17 grid (to +-2^20) against their own grid points moved by 1, 2, 4 units of 2^-34 (exact big-integer oracle); ulp grid: x = +-(2^20-1) + k 2^-33, y = 0..6, every (segment, point) triple over 7x7 and every segment pair over 4x4; non-trivial = probe inside the segment's y-range (point cases) / bounding boxes meet (segment cases)"
 	r.Assume = []string{"coordinates are dyadic with magnitude <= 2^20 (the property's own domain)", "exact oracle: integer orientation predicates (verif/mc/exact)"}
 	type seg struct{ a, b exact.P }
 	segs := make([]seg, 0, len(L)*len(L))
@@ -146,10 +146,14 @@ func runC19(r *rt.Run) {
 	c19NearParallel(r)
 	c19UlpGrid(r)
 	c19NegZero(r)
+	c19MixedScale(r)
 	r.Sample(map[string]any{"segment_pair": []any{segG(geometry.Point{X: 0, Y: 1}, geometry.Point{X: 0, Y: 2}), segG(geometry.Point{X: 0, Y: 0}, geometry.Point{X: 0, Y: 3})}, "note": "nested collinear pair (needs 4 collinear lattice points)"})
 }
 
 func evalC19(c *rt.Case) (bool, string, string, error) {
+	if c.Kind == "mixed-scale" {
+		return evalC19MixedScale(c)
+	}
 	if c.Kind == "negzero" {
 		return evalC19NegZero(c)
 	}
